@@ -385,6 +385,9 @@ def run(ctx):
         random.Random(base + w).shuffle(todo)
     extra_round = 0
     i = 0
+    ncases = 0
+    # the time budget bounds the run on a normal machine; on an overloaded one the floors are still reached (count first, capped)
+    min_here = -(-200 // max(1, ctx.nworkers))
     while True:
         if i >= len(todo):
             if ctx.quick:
@@ -394,13 +397,14 @@ def run(ctx):
             r = random.Random(base + 7919 * extra_round + (ctx.worker or 0))
             todo = [(r.randrange(1 << 30), r.choice(cases)) for _ in range(200)]
             i = 0
-        if ctx.time_left(budget) < 0:
+        if ctx.time_left(budget) < 0 and (ncases >= min_here or ctx.time_left(budget * (5 if ctx.quick else 2)) < 0):
             if not ctx.quick and extra_round == 0:
                 done_slice = False
             ctx.note("stopped by time budget (%s)" % ("slice unfinished" if (not ctx.quick and extra_round == 0) else "sampling"))
             break
         seed, (mode, states) = todo[i]
         i += 1
+        ncases += 1
         try:
             viol, harness, infos = run_case(seed, mode, states)
         except WorldLimit:
